@@ -1004,6 +1004,14 @@ fn celems(vals: &[u64]) -> Vec<CElem> {
     vals.iter().map(|x| CElem(*x)).collect()
 }
 
+/// the referents of a borrowing probe, stored in *reverse* order: consecutive elements of the iteration are not at ascending
+/// adjacent addresses (an iterator of references need not walk a slice)
+fn script_vals_rev(script: &[crate::case::Entry]) -> Vec<u64> {
+    let mut v = script_vals(script);
+    v.reverse();
+    v
+}
+
 fn script_vals(script: &[crate::case::Entry]) -> Vec<u64> {
     script
         .iter()
@@ -1164,7 +1172,7 @@ pub fn run_case(case: &Case) {
         }
         // ---- iterref
         (Src::IterRef(script, hint), Adapt::None) => {
-            let b = elems(&script_vals(script));
+            let b = elems(&script_vals_rev(script));
             let mut once = Some(RefProbe {
                 core: ProbeCore::new(script.clone(), *hint),
                 backing: b.as_slice(),
@@ -1175,7 +1183,7 @@ pub fn run_case(case: &Case) {
             });
         }
         (Src::IterRef(script, hint), Adapt::Cloned) => {
-            let b = elems(&script_vals(script));
+            let b = elems(&script_vals_rev(script));
             let mut once = Some(RefProbe {
                 core: ProbeCore::new(script.clone(), *hint),
                 backing: b.as_slice(),
@@ -1186,7 +1194,7 @@ pub fn run_case(case: &Case) {
             });
         }
         (Src::IterRef(script, hint), Adapt::Copied) => {
-            let b = celems(&script_vals(script));
+            let b = celems(&script_vals_rev(script));
             let mut once = Some(RefProbe {
                 core: ProbeCore::new(script.clone(), *hint),
                 backing: b.as_slice(),
